@@ -1,7 +1,7 @@
 (* Run.C02 — driver for the generated correspondence cases of C02. *)
 From Coq Require Import ZArith String List Bool.
 From JMCV Require Import Base.Int32 Base.Dec MC.Syntax MC.Print Model.Names Model.Expr Model.ExprSpec
-     Model.ExprFront Model.ExprBack Run.Common.
+     Model.ExprFront Model.ExprBack Model.ExprCtx Run.Common.
 Import ListNotations.
 Open Scope string_scope.
 
@@ -95,3 +95,77 @@ Definition summarize (known : list string) (l : list case) : list (list nat) :=
   let s := summarize_from known l 0 (mkSummary [] [] [] [] [] (map (fun _ => O) all_tags)) in
   [rev (s_mismatch s); rev (s_render s); rev (s_unmodelled s); rev (s_unexplained s);
    flat_map (fun p => [fst p; snd p]) (rev (s_explained s)); s_tagcount s].
+
+(* ------------------------------------------------------------------ statements in a one-command position *)
+(* `[execute <tests> run] [return run] [o_n = … = o_1 =] target :<form>= e;`  (Model.ExprCtx) *)
+Record xstmt := mkXStmt {
+  x_t : svar; x_form : opc; x_e : expr;
+  x_guard : list (bool * test);
+  x_ret : bool;
+  x_chain : list svar                (* outer targets of the chained assignment, innermost first *)
+}.
+Record xcase := mkXCase {
+  xc_nm : names;
+  xc_stmts : list xstmt;             (* the statements of function f, in order *)
+  xc_after : bool;                   (* f ends with `$after = 7;` *)
+  xc_real : string;                  (* body of f emitted by the real compiler, "<diag>" or "<crash Class>" *)
+  xc_fns : list (string * string);   (* (resource name, body) of the private functions of group `anonymous`, by number *)
+  xc_ints : list Z
+}.
+
+(* -> compiled statements, or None if the model leaves one of them outside (diagnostic, Unmodelled, …) *)
+Fixpoint compile_stmts (nm : names) (l : list xstmt) : option (list (ctx * score * list cmd) * list Z) :=
+  match l with
+  | [] => Some ([], [])
+  | x :: r =>
+    let out := score_of nm (x_t x) in
+    match fst (compile_expr nm out (x_form x) (x_e x)), compile_stmts nm r with
+    | Ok (cmds, ints), Some (ps, is) =>
+        Some ((mkCtx (x_guard x) (x_ret x) (map (score_of nm) (x_chain x)), out, cmds) :: ps, (ints ++ is)%list)
+    | _, _ => None
+    end
+  end.
+
+Definition after_line (nm : names) : line := plain (CSet ("$after", var_name nm) 7).
+
+Definition pair_eqb (a b : string * string) : bool := String.eqb (fst a) (fst b) && String.eqb (snd a) (snd b).
+Fixpoint list_eqb {A} (eqb : A -> A -> bool) (a b : list A) : bool :=
+  match a, b with
+  | [], [] => true
+  | x :: a', y :: b' => eqb x y && list_eqb eqb a' b'
+  | _, _ => false
+  end.
+
+Definition xmodel (c : xcase) : option (string * list (string * string) * list Z) :=
+  match compile_stmts (xc_nm c) (xc_stmts c) with
+  | None => None
+  | Some (ps, ints) =>
+    let '(ls, fs) := place_all (xc_nm c) 0 ps in
+    Some (pr_lines (ls ++ (if xc_after c then [after_line (xc_nm c)] else []))%list,
+          map (fun d => (fst d, pr_lines (snd d))) fs, ints)
+  end.
+
+(* 0 = model and implementation agree; 1 = they differ; 2 = outside the model *)
+Definition xstatus (c : xcase) : nat :=
+  match xmodel c with
+  | None => 2
+  | Some (f, fns, ints) =>
+    if String.eqb f (xc_real c) && list_eqb pair_eqb fns (xc_fns c) && zset_eq ints (xc_ints c) then 0 else 1
+  end.
+Definition xmodel_text (c : xcase) : string :=
+  match xmodel c with
+  | None => "<outside the model>"
+  | Some (f, fns, _) =>
+    String.concat (String (Ascii.ascii_of_nat 10) EmptyString)
+      (("# f" ++ String (Ascii.ascii_of_nat 10) EmptyString ++ f)
+       :: map (fun d => "# " ++ fst d ++ String (Ascii.ascii_of_nat 10) EmptyString ++ snd d) fns)
+  end.
+
+Fixpoint xsummarize_from (l : list xcase) (i : nat) (bad out : list nat) : list (list nat) :=
+  match l with
+  | [] => [rev bad; rev out]
+  | c :: r =>
+    let s := xstatus c in
+    xsummarize_from r (S i) (if Nat.eqb s 1 then i :: bad else bad) (if Nat.eqb s 2 then i :: out else out)
+  end.
+Definition xsummarize (l : list xcase) : list (list nat) := xsummarize_from l 0 [] [].
